@@ -425,3 +425,47 @@ GROUPS["g8"] += [
       "    let _ = candidate_len;\n    let end = source.iter().rposition(|c| c.is_ascii_digit())?;",
       "R-C12-lexlocal:entry:lex_number"),
 ]
+
+GROUPS["g9"] = [
+    # touching lints are dropped too
+    E("c13-sweep-le", ["C13"], "harper-core/src/lib.rs",
+      "        if lint.span.start < cur {", "        if lint.span.start <= cur {",
+      "R-C13-sweep:remove_overlaps:drop"),
+]
+GROUPS["g10"] = [
+    # the running end follows the start of the kept lint
+    E("c13-sweep-end-is-start", ["C13"], "harper-core/src/lib.rs",
+      "        cur = lint.span.end;", "        cur = lint.span.start;",
+      "R-C13-sweep:remove_overlaps:keep-sets-end"),
+]
+GROUPS["g11"] = [
+    # sorted by end instead of start
+    E("c13-sort-by-end", ["C13"], "harper-core/src/lib.rs",
+      "lints.sort_by_key(|l| (l.span.start, !0 - l.span.end));", "lints.sort_by_key(|l| (l.span.end, !0 - l.span.start));",
+      "R-C13-sweep:remove_overlaps:sort-key"),
+]
+GROUPS["g12"] = [
+    # decision inverted
+    E("c13-sweep-inverted", ["C13"], "harper-core/src/lib.rs",
+      "        if lint.span.start < cur {", "        if lint.span.start > cur {",
+      "R-C13-sweep:remove_overlaps"),
+]
+GROUPS["p4"] = [
+    # the same sweep with the branches the other way round
+    E("p-c13-branches-swapped", ["C13"], "harper-core/src/lib.rs",
+      "        if lint.span.start < cur {\n            remove_indices.push_back(i);\n            continue;\n        }\n        cur = lint.span.end;",
+      "        if lint.span.start >= cur {\n            cur = lint.span.end;\n        } else {\n            remove_indices.push_back(i);\n        }",
+      None),
+]
+
+_C12_OLD = '        let mut replace_starts = Vec::new();\n\n        for idx in 0..self.tokens.len() - 1 {\n            let b = &self.tokens[idx + 1];\n            let a = &self.tokens[idx];\n\n            // TODO: Allow spaces between `a` and `b`\n\n            if let (TokenKind::Number(..), TokenKind::Word(..)) = (&a.kind, &b.kind) {\n                if let Some(found_suffix) = NumberSuffix::from_chars(self.get_span_content(&b.span))\n                {\n                    self.tokens[idx].kind.as_mut_number().unwrap().suffix = Some(found_suffix);\n                    replace_starts.push(idx);\n                }\n            }\n        }\n\n        self.condense_indices(&replace_starts, 2);'
+_C12_BAD = '        let mut replace_starts = Vec::new();\n        let mut spaced_starts = Vec::new();\n\n        for idx in 0..self.tokens.len() - 1 {\n            if !self.tokens[idx].kind.is_number() {\n                continue;\n            }\n\n            let spaced = matches!(self.tokens[idx + 1].kind, TokenKind::Space(1));\n\n            let Some(b) = self.tokens.get(idx + 1 + spaced as usize) else {\n                continue;\n            };\n\n            // A detached suffix must be the whole word: `5 things` is not `5th`.\n            if !b.kind.is_word() || (spaced && b.span.len() != 2) {\n                continue;\n            }\n\n            if let Some(found_suffix) = NumberSuffix::from_chars(self.get_span_content(&b.span)) {\n                self.tokens[idx].kind.as_mut_number().unwrap().suffix = Some(found_suffix);\n\n                if spaced {\n                    spaced_starts.push(idx);\n                } else {\n                    // The spaced stretches before this one are condensed first.\n                    replace_starts.push(idx - spaced_starts.len());\n                }\n            }\n        }\n\n        self.condense_indices(&spaced_starts, 3);\n        self.condense_indices(&replace_starts, 2);'
+_C12_GOOD = '        let mut replace_starts = Vec::new();\n        let mut spaced_starts = Vec::new();\n\n        for idx in 0..self.tokens.len() - 1 {\n            if !self.tokens[idx].kind.is_number() {\n                continue;\n            }\n\n            let spaced = matches!(self.tokens[idx + 1].kind, TokenKind::Space(1));\n\n            let Some(b) = self.tokens.get(idx + 1 + spaced as usize) else {\n                continue;\n            };\n\n            // A detached suffix must be the whole word: `5 things` is not `5th`.\n            if !b.kind.is_word() || (spaced && b.span.len() != 2) {\n                continue;\n            }\n\n            if let Some(found_suffix) = NumberSuffix::from_chars(self.get_span_content(&b.span)) {\n                self.tokens[idx].kind.as_mut_number().unwrap().suffix = Some(found_suffix);\n\n                if spaced {\n                    spaced_starts.push(idx);\n                } else {\n                    // The spaced stretches before this one are condensed first.\n                    replace_starts.push(idx - 2 * spaced_starts.len());\n                }\n            }\n        }\n\n        self.condense_indices(&spaced_starts, 3);\n        self.condense_indices(&replace_starts, 2);'
+GROUPS["g13"] = [
+    # detached number suffixes, re-based by one token per earlier entry instead of two (seeded/C12)
+    E("c12-stale-indices", ["C02", "C12"], "harper-core/src/document.rs", _C12_OLD, _C12_BAD, "stale:Document::condense_number_suffixes:replace_starts"),
+]
+GROUPS["p5"] = [
+    # the same feature with the right re-basing: the property holds, the checks must stay silent
+    E("p-c12-detached-suffixes-rebased", ["C02", "C12", "C01"], "harper-core/src/document.rs", _C12_OLD, _C12_GOOD, None),
+]
